@@ -772,8 +772,14 @@ template<RuleLocal::erule effrule>
 std::vector<int> GridLocalPolynomial::getSubGraph(std::vector<int> const &point) const{
     std::vector<int> graph, p = point;
     std::vector<bool> used(points.getNumIndexes(), false);
-    int max_1d_kids = RuleLocal::getMaxNumKids<effrule>();
+    // the semi-local rule has points (3 and 4) whose step-parent (2 and 1) does not list them as kids,
+    // those descendants must be updated too, they are visited as one extra "kid"
+    int max_1d_kids = RuleLocal::getMaxNumKids<effrule>() + ((effrule == RuleLocal::erule::semilocalp) ? 1 : 0);
     int max_kids = max_1d_kids * num_dimensions;
+    auto get_kid = [&](int point, int kid)->int{
+        if (kid < RuleLocal::getMaxNumKids<effrule>()) return RuleLocal::getKid<effrule>(point, kid);
+        return (point == 1) ? 4 : ((point == 2) ? 3 : -1);
+    };
 
     std::vector<int> monkey_count(1, 0), monkey_tail;
 
@@ -781,8 +787,8 @@ std::vector<int> GridLocalPolynomial::getSubGraph(std::vector<int> const &point)
         if (monkey_count.back() < max_kids){
             int dim = monkey_count.back() / max_1d_kids;
             monkey_tail.push_back(p[dim]);
-            p[dim] = RuleLocal::getKid<effrule>(monkey_tail.back(), monkey_count.back() % max_1d_kids);
-            int slot = points.getSlot(p);
+            p[dim] = get_kid(monkey_tail.back(), monkey_count.back() % max_1d_kids);
+            int slot = (p[dim] == -1) ? -1 : points.getSlot(p);
             if ((slot == -1) || used[slot]){ // this kid is missing
                 p[dim] = monkey_tail.back();
                 monkey_tail.pop_back();
